@@ -488,7 +488,7 @@ func (w *World) execTransfer(st *Step) {
 			vx.Harnessf("cannot decode committed v1 packet data %q", p1.Data)
 		}
 		datas = append(datas, d)
-		if p1.SourceChannel != src.ID || p1.DestinationChannel != dstEnd.ID || p1.SourcePort != Port || p1.DestinationPort != Port {
+		if p1.SourceChannel != src.ID || p1.DestinationChannel != dstEnd.ID || p1.SourcePort != Port || p1.DestinationPort != l.Port(1-dir) {
 			st.DataNote += fmt.Sprintf("packet route %s/%s->%s/%s; ", p1.SourcePort, p1.SourceChannel, p1.DestinationPort, p1.DestinationChannel)
 		}
 	} else {
@@ -513,6 +513,9 @@ func (w *World) execTransfer(st *Step) {
 	}
 	w.Pkts = append(w.Pkts, sp)
 	tp := &TPkt{P: sp, Src: src, Dst: dstEnd, Kind: kind, Via: via, RecvStep: -1, EndStep: -1}
+	if w.IsMock(l) {
+		tp.Kind = KMock
+	}
 	for i, lr := range legs {
 		d := datas[i]
 		amt, ok := new(big.Int).SetString(d.Amount, 10)
